@@ -39,6 +39,9 @@ def fragments(prog):
                 ok = True
                 for el in v.args:
                     bounded = el.kind == "const" and el.v < 0x80
+                    ub = G.upper_bound(gs, el)
+                    if ub is not None and ub < 0x80:
+                        bounded = True
                     for g in gs:
                         if g.op in ("Le", "Lt") and g.b is not None and g.b.kind == "const" and g.a.same(el):
                             lim = g.b.v - (1 if g.op == "Lt" else 0)
